@@ -751,7 +751,29 @@ def r07_17(ctx: Ctx, rule: str = "R07.17") -> None:
                   "single component 'd2\\f2' (write() stores 'd2/f2'; the gate already judges the name with '/')", construct="backslash stored by writestr")
 
 
+def r07_21(ctx: Ctx, rule: str = "R07.21") -> None:
+    """what the encoder is told, the header says: SupportedMethods.get_coder writes `properties` for LZMA1/LZMA2/Delta from the filter
+    dictionary; for every other native filter (the branch filters) the record has NO properties, so an option the liblzma encoder would
+    honour (`start_offset`) must be refused on that arm - the assignment `properties = None` is dominated by a test of the option whose
+    failing arm raises.  Otherwise the data is converted with an offset no reader knows of and the archive's own CRCs do not match."""
+    f = ctx.prog.func("compressor", "SupportedMethods.get_coder")
+    cfg = cfg_of(f.node)
+    nones = [n for n in walk(f.node) if isinstance(n, ast.Assign) and norm(n.targets[0]) == "properties" and isinstance(n.value, ast.Constant) and n.value.value is None]
+    ctx.floor(rule, len(nones), 1, "`properties = None` arm in get_coder")
+    for n in nones:
+        nn = q.node_for(f, n)
+        ok = any(t.kind == "test" and any(isinstance(x, ast.Constant) and x.value == "start_offset" for x in ast.walk(t.ast)) and cfg.dominates(t, nn)
+                 and any(e.kind in ("true", "false") and q.branch_always_raises(cfg, e) and not cfg.reaches(e, nn) for e in t.succ) for t in cfg.nodes)
+        ctx.check(ok, rule, f, n, "a branch filter's start offset is refused (its coder record cannot hold it)",
+                  "get_coder writes a coder record without properties for a branch filter and never looks at the filter's `start_offset`: "
+                  "`filters=[{'id': FILTER_X86, 'start_offset': 4096}, {'id': FILTER_LZMA2}]` is encoded with the offset, recorded without it, and every reader - testzip() of the same "
+                  "library included - decodes other bytes than the CRC was taken from", construct="unrecordable filter option accepted")
+
+
 def run(ctx: Ctx) -> None:
+    r07_21(ctx)
+    from . import c15 as _c15r
+    _c15r.r15_16(ctx, rule="R07.20")  # a failed append puts the header back as it was found (encrypted iff it was)
     r07_17(ctx)
     from . import c16 as _c16
     _c16.r16_8(ctx, rule="R07.15")  # a NUL in a name breaks the Names record
